@@ -183,15 +183,76 @@ Definition decode (g : geom) (i : Z) : Z * Z * Z :=
 
 Definition u32 (v : Z) : Z := v mod 4294967296.
 
+(** * User and system SGPRs (emu initWfRegs and timing initRegisters: the same
+    sequence of independent enables, each enabled input takes the next
+    [in_size] dwords; inputs the simulator does not support reserve their
+    dwords without writing them) *)
+
+Record sinput := mkIn { in_en : bool; in_size : nat; in_val : option (list Z) }.
+
+Definition fwrite (ptr : nat) (v : list Z) (f : nat -> Z) : nat -> Z :=
+  fun a => if (ptr <=? a)%nat && (a <? ptr + length v)%nat then nth (a - ptr) v 0 else f a.
+
+(** the SGPRPtr walk *)
+Fixpoint place (ptr : nat) (ins : list sinput) (f : nat -> Z) : nat -> Z :=
+  match ins with
+  | [] => f
+  | i :: r =>
+      if in_en i
+      then place (ptr + in_size i) r (match in_val i with Some v => fwrite ptr v f | None => f end)
+      else place ptr r f
+  end.
+
+(** dwords taken by the enabled inputs before input number [k] *)
+Fixpoint slot_of (k : nat) (ins : list sinput) : nat :=
+  match k, ins with
+  | S k', i :: r => (if in_en i then in_size i else 0) + slot_of k' r
+  | _, _ => 0
+  end.
+
+Definition lo32 (v : Z) : Z := v mod 4294967296.
+Definition hi32 (v : Z) : Z := (v / 4294967296) mod 4294967296.
+
+(** (GridSize + uint32(WorkgroupSize) - 1) / uint32(WorkgroupSize) in uint32 *)
+Definition wg_count (gr s : Z) : Z := u32 (gr + s - 1) / s.
+
+(** enable mask: bit 0 private segment buffer, 1 dispatch ptr, 2 queue ptr,
+    3 kernarg segment ptr, 4 dispatch id, 5 flat scratch init, 6 private
+    segment size, 7/8/9 grid work-group count X/Y/Z, 10/11/12 work-group ID
+    X/Y/Z (compute_pgm_rsrc2 bits 7/8/9) *)
+Definition sgpr_inputs (m : Z) (g : geom) (w : wg) (packet_addr kernarg_addr : Z) : list sinput :=
+  let b := Z.testbit m in
+  [ mkIn (b 0) 4 None;
+    mkIn (b 1) 2 (Some [lo32 packet_addr; hi32 packet_addr]);
+    mkIn (b 2) 2 None;
+    mkIn (b 3) 2 (Some [lo32 kernarg_addr; hi32 kernarg_addr]);
+    mkIn (b 4) 2 None;
+    mkIn (b 5) 2 None;
+    mkIn (b 6) 1 None;
+    mkIn (b 7) 1 (Some [wg_count (gx g) (sx g)]);
+    mkIn (b 8) 1 (Some [wg_count (gy g) (sy g)]);
+    mkIn (b 9) 1 (Some [wg_count (gz g) (sz g)]);
+    mkIn (b 10) 1 (Some [u32 (idx w)]);
+    mkIn (b 11) 1 (Some [u32 (idy w)]);
+    mkIn (b 12) 1 (Some [u32 (idz w)]) ].
+
+(** value found in a register the initialiser did not write (harness pre-fill) *)
+Definition UNWRITTEN : Z := 4008636142.
+
+Definition NSREG : nat := 24.
+Definition PACKET_ADDR : Z := 4294983680.    (* 0x100004000, harness constant *)
+Definition KERNARG_ADDR : Z := 8609023232.   (* 0x201234500 *)
+
+(** s0..s23 after initialisation *)
+Definition sgpr_file (m : Z) (g : geom) (w : wg) : list Z :=
+  map (place 0 (sgpr_inputs m g w PACKET_ADDR KERNARG_ADDR) (fun _ => UNWRITTEN)) (seq 0 NSREG).
+
 (** emu, V5 objects: uint32(x) | uint32(y)<<10 | uint32(z)<<20 *)
 Definition pack_v5 (x y z : Z) : Z :=
   Z.lor (u32 x) (Z.lor (u32 (Z.shiftl (u32 y) 10)) (u32 (Z.shiftl (u32 z) 20))).
 
 Definition unpack_v5 (p : Z) : Z * Z * Z :=
   (Z.land p 1023, Z.land (Z.shiftr p 10) 1023, Z.land (Z.shiftr p 20) 1023).
-
-(** value found in a register the initialiser did not write (harness pre-fill) *)
-Definition UNWRITTEN : Z := 4008636142.
 
 (** (v0, v1, v2) of one lane after emu initWfRegs *)
 Definition emu_lane_regs (ver vgpr : Z) (g : geom) (i : Z) : Z * Z * Z :=
@@ -240,10 +301,10 @@ Definition filter_of (g : geom) (s : fspec) : option (wg -> bool) :=
 
 Definition t3 := (Z * Z * Z)%type.
 Definition owg := (t3 * t3 * Z * list t3)%type.   (* ids, current sizes, #items, wavefronts (first, exec, #items) *)
-Definition osmp := (nat * nat * t3 * t3 * Z * Z * list t3 * list t3)%type.
+Definition osmp := (nat * nat * list Z * list Z * Z * Z * list t3 * list t3)%type.
 
 Record ccase := mkCase {
-  c_g : geom; c_f : fspec; c_ver : Z; c_vgpr : Z; c_skip : nat;
+  c_g : geom; c_f : fspec; c_ver : Z; c_vgpr : Z; c_sgpr : Z; c_skip : nat;
   o_numwg : Z; o_wgs : list owg; o_nil : bool; o_crash : bool; o_smp : list osmp }.
 
 Definition t3_eqb (a b : t3) : bool :=
@@ -278,7 +339,7 @@ Fixpoint first_diff {A} (e : A -> A -> bool) (a b : list A) (k : Z) : option Z :
   end.
 
 Definition check_smp (c : ccase) (wgs : list wg) (s : osmp) : bool :=
-  let '(iw, iv, ewg, twg, eexec, texec, elanes, tlanes) := s in
+  let '(iw, iv, esg, tsg, eexec, texec, elanes, tlanes) := s in
   let g := c_g c in
   match nth_error wgs iw with
   | None => false
@@ -287,11 +348,11 @@ Definition check_smp (c : ccase) (wgs : list wg) (s : osmp) : bool :=
       | None => false
       | Some v =>
           let ids := map (fun l => first v + l) (zrange 0 64) in
-          let wgid := (u32 (idx w), u32 (idy w), u32 (idz w)) in
+          let sg := sgpr_file (c_sgpr c) g w in
           let m := mask_of (lanes v) in
           let tmodel := map (tim_lane_regs (c_vgpr c) g) ids in
           let emodel := map (emu_lane_regs (c_ver c) (c_vgpr c) g) ids in
-          t3_eqb ewg wgid && t3_eqb twg wgid && (eexec =? m) && (texec =? m) &&
+          list_eqb Z.eqb esg sg && list_eqb Z.eqb tsg sg && (eexec =? m) && (texec =? m) &&
           list_eqb t3_eqb elanes emodel &&
           (* timing: as coded (never packed); a tree in which the timing
              dispatcher packs V5 ids like the emulator is accepted as well *)
